@@ -11,9 +11,12 @@ META = {
             "op-assign, fused increment, call-with-coercion, print, return]; interface{} parameters/results and nil for nillable result "
             "types are modelled too. Only searched: everything else a program can do — floats as values, strings, structs, arrays, maps, "
             "loops, closures, named types — by a two-mode differential run of generated strict-accepted programs at optimizer levels 0 "
-            "and 2). The model is tied to the code by running the REAL validateFunctionArguments/argByteCode/coerceByteCode/storeByteCode "
+            "and 2, including an aliasing stream: containers of every element kind sent through typed boundaries [function results "
+            "from a global / parameter / field / captured variable, typed initializer elements, typed declarations], written through "
+            "one name and read through the other; and reference values at the argument / return / store boundaries with a "
+            "pointer-identity answer). The model is tied to the code by running the REAL validateFunctionArguments/argByteCode/coerceByteCode/storeByteCode "
             "on real Contexts against the Lean functions, and generated statement-language programs through the REAL compiler against "
-            "the Lean `exec`; the dispatch sets of math.go are regenerated on every run (C03's translator).",
+            "the Lean `exec`, and the REAL coerceByteCode on arrays, maps, structs and pointers of every element kind against `retRef`; the dispatch sets of math.go are regenerated on every run (C03's translator).",
     "note": "trusted: Lean kernel; tools/extract_c03; the harnesses zz_verif_c04_test.go (bytecode/, compiler/) and C03's helpers. "
             "Builds on C03's model (binop, negate, increment, store). modelled-not-verified: ego.runtime.precision.error=true; float/"
             "string/bool/struct/array VALUES at the boundaries; loops and branches in the program model (straight-line only). The "
@@ -29,7 +32,8 @@ META = {
 }
 
 REQUIRED = ["C04_strict_implies_relaxed", "C04_same_output", "C04_mono_binop", "C04_mono_increment", "C04_mono_store",
-            "C04_mono_storeOp", "C04_mono_arg", "C04_mono_ret", "C04_mono_retIface", "C04_mono_retNil", "C04_argIface_counterexample",
+            "C04_mono_storeOp", "C04_mono_arg", "C04_mono_ret", "C04_mono_retIface", "C04_mono_retNil", "C04_mono_retRef",
+            "C04_retRef_asymmetric_counterexample", "C04_argIface_counterexample",
             "C04_argIface_partial", "C04_prefix_retNil_counterexample"]
 
 
@@ -60,9 +64,15 @@ def run(ctx):
     pcases = ctx.read_jsonl("c04s_cases.jsonl")
     ctx.correspond(header + cases, label="boundary correspondence (argument / return / store)")
     ctx.correspond(header + pcases, label="program correspondence (statement language through the real compiler)")
-    for name in ("c04_failures.jsonl", "c04s_failures.jsonl"):
-        for f in ctx.read_jsonl(name):
-            ctx.fail(f["class"], f["what"], input=f.get("input"), got=f.get("got"), want=f.get("want"))
+    # the replay file keeps the first failures only: report the first two witnesses of every class before the rest
+    allf = [f for name in ("c04_failures.jsonl", "c04s_failures.jsonl") for f in ctx.read_jsonl(name)]
+    rank = {}
+    head, tail = [], []
+    for f in allf:
+        rank[f["class"]] = rank.get(f["class"], 0) + 1
+        (head if rank[f["class"]] <= 2 else tail).append(f)
+    for f in head + tail:
+        ctx.fail(f["class"], f["what"], input=f.get("input"), got=f.get("got"), want=f.get("want"))
     st = (ctx.read_jsonl("c04_stats.json") or [{}])[0]
     st2 = (ctx.read_jsonl("c04s_stats.json") or [{}])[0]
     c = dict(st.get("counters", {}))
@@ -71,9 +81,9 @@ def run(ctx):
         "evaluations": len(cases) + len(pcases) + c.get("source.runs", 0),
         "distinct_nontrivial": c.get("distinct_nontrivial", 0) + c.get("source.distinct_nontrivial", 0),
         "rule": "boundary cells: (boundary, mode, declared type, operand) on a real Context; non-trivial = operand is a constant or "
-                "differs in kind from the declared type, distinct by protocol line. programs: distinct generated source texts that "
+                "differs in kind from the declared type, distinct by protocol line; reference cells (retref) always count. programs: distinct generated source texts that "
                 "strict mode ran to completion with non-empty output and that contain at least one typed boundary (typed declaration, "
-                "call of a typed function, op-assign or cast); each is run in strict and relaxed mode at optimizer levels 0 and 2",
+                "call of a typed function, op-assign or cast; every aliasing program has one); each is run in strict and relaxed mode at optimizer levels 0 and 2",
         "samples": st.get("samples", [])[:3] + st2.get("samples", [])[:4],
         "counters": c,
     })
